@@ -77,9 +77,35 @@ func constStrings(files []*ast.File) map[string]string {
 	return out
 }
 
-// every `X = regexp.MustCompile(<string literal>)`
+// constant string expressions: literals, named string constants, `+`, parentheses
+func evalConstString(e ast.Expr, consts map[string]string) (string, bool) {
+	switch x := e.(type) {
+	case *ast.BasicLit:
+		if x.Kind != token.STRING {
+			return "", false
+		}
+		v, err := strconv.Unquote(x.Value)
+		return v, err == nil
+	case *ast.Ident:
+		v, ok := consts[x.Name]
+		return v, ok
+	case *ast.ParenExpr:
+		return evalConstString(x.X, consts)
+	case *ast.BinaryExpr:
+		if x.Op != token.ADD {
+			return "", false
+		}
+		a, ok1 := evalConstString(x.X, consts)
+		b, ok2 := evalConstString(x.Y, consts)
+		return a + b, ok1 && ok2
+	}
+	return "", false
+}
+
+// every `X = regexp.MustCompile(<constant string expression>)`
 func patterns(files []*ast.File) [][2]string {
 	var out [][2]string
+	consts := constStrings(files)
 	for _, f := range files {
 		ast.Inspect(f, func(n ast.Node) bool {
 			vs, ok := n.(*ast.ValueSpec)
@@ -98,12 +124,8 @@ func patterns(files []*ast.File) [][2]string {
 				if !ok || sel.Sel.Name != "MustCompile" {
 					continue
 				}
-				bl, ok := call.Args[0].(*ast.BasicLit)
-				if !ok || bl.Kind != token.STRING {
-					continue
-				}
-				p, err := strconv.Unquote(bl.Value)
-				if err != nil {
+				p, ok := evalConstString(call.Args[0], consts)
+				if !ok {
 					continue
 				}
 				out = append(out, [2]string{nm.Name, p})
